@@ -89,7 +89,8 @@ def cond_cases(rng, tier):
 FAIL = {0: 0b0000, 1: 0b0100, 2: 0b0000, 3: 0b0010, 4: 0b0000, 5: 0b1000, 6: 0b0000, 7: 0b0001, 8: 0b0000, 9: 0b0010,
         10: 0b1000, 11: 0b0000, 12: 0b0100, 13: 0b0000}      # for each condition an NZCV value for which it fails
 SKIP_ARM = {'BkptA1', 'UdfA1'}                               # unconditional even with a condition field
-SKIP_THUMB = {'BT1', 'BT3', 'CbzT1', 'ItT1', 'BkptT1', 'UdfT1', 'UdfT2'}   # carry their own condition / UNPREDICTABLE in an IT block
+SKIP_THUMB = {'BT1', 'BT3', 'CbzT1', 'ItT1', 'BkptT1', 'UdfT1', 'UdfT2',   # carry their own condition / UNPREDICTABLE in an IT block
+              'EnterxLeavexT1'}      # ENTERX/LEAVEX have no <c> and no ConditionPassed() in their pseudocode (A9.3.1): unconditional
 
 
 def condfail_cases(rng, tier):
